@@ -402,4 +402,5 @@ func runC06(t *Trace, r *Rng, tier string, _ []string) {
 	t.Set("slice_store_runs", sliceRuns)
 	t.Set("prealloc_cap_runs", capRuns)
 	t.Set("search_after_runs", afterRuns)
+	runC06E2E(t, r, tier)
 }
